@@ -26,6 +26,7 @@ INVARIANT OrbitStabiliser
 def drive(rec):
     import numpy as np
     t = {"n": rec["n"], "gram": rec["gram"], "asym": rec["asym"], "ops": [], "decimals": int(rec.get("decimals") or 0),
+         "switched": bool(rec.get("via_switch")), "pre": rec.get("pre", {}), "choice": rec["choice"],
          "applied": {"exc": "", "off": False, "codes": [], "raw": []},
          "uc": {"exc": "", "off": False, "rows": [], "cc": []},
          "slab": {"exc": "", "off": False, "rows": [], "lo": rec["slab"][0], "hi": rec["slab"][1], "n_uc": 0, "n_cells": 0},
@@ -113,6 +114,23 @@ def recipes_for(ctx, rows, per_setting):
                         "u": rng.uniform(3.0, 12.0) / (max(gram[i][i] for i in range(3)) ** 0.5),
                         "asym": asym, "slab": [[-1, 0, 0], [0, 0, 1]], "route": "params", "decimals": rng.choice([12, 9, 12]),
                         "src": "file-precision special positions"})
+    # objects that were used in hexagonal axes and then switched in place to rhombohedral axes (the unit cell must be that of
+    # the new setting, whatever was computed before)
+    for r in rows:
+        if r["number"] in (146, 148, 155, 160, 161, 166, 167) and r["choice"] == "H":
+            for k in range(ctx.pick(2, 12)):
+                asym = xtal.gen_asym(rng, r["ops"], 12, rng.randint(1, 3), want_special=(k % 2 == 0))
+                if not asym:
+                    continue
+                pq = (rng.randint(1, 5), rng.randint(1, 9))
+                gram = [[18 * pq[0], -9 * pq[0], 0], [-9 * pq[0], 18 * pq[0], 0], [0, 0, 9 * pq[1]]]
+                rec_h = {"number": r["number"], "choice": "H", "n": 12, "gram": gram,
+                         "u": rng.uniform(4.0, 10.0) / (18 * pq[0]) ** 0.5, "asym": asym}
+                rec_r = xtal.switched_recipe(rec_h, rows)
+                if rec_r is None:
+                    continue
+                rec_r.update(slab=[[-1, 0, -1], [0, 1, 0]], route="params", decimals=0, src="switched in place H->R after use")
+                out.append(rec_r)
     # sites at lattice points written as integers ([[0, 0, 0]], [[1, 0, -1]]): every operation with a translation part must
     # still move them by that fraction
     for i, r in enumerate(rows):
